@@ -36,6 +36,11 @@ type Case struct {
 	ImplA string `json:"impl_a_arg_defs,omitempty"`
 	ImplB string `json:"impl_b_arg_defs,omitempty"`
 	Via   string `json:"via,omitempty"` // interface-list | union-fragment
+	// multi-operation documents: a second operation that spreads the same fragment (the field sits in a
+	// fragment then) and declares the same variable names with these definitions; the operation with
+	// VarDefs is the one executed (operationName), AltFirst says which comes first in the document
+	AltVarDefs string `json:"alt_var_defs,omitempty"`
+	AltFirst   bool   `json:"alt_first,omitempty"`
 	// derived from the above, written for the reader of a replay file
 	Query     string `json:"query,omitempty"`
 	Variables string `json:"variables,omitempty"`
@@ -59,12 +64,15 @@ type named struct {
 }
 
 type pcase struct {
-	site    string
-	env     map[string]*InputDef
-	argDefs []argDef
-	varDefs []varDef
-	args    []named
-	raw     []named
+	site     string
+	env      map[string]*InputDef
+	argDefs  []argDef
+	varDefs  []varDef
+	altDefs  []varDef // multi-operation documents
+	multi    bool
+	altFirst bool
+	args     []named
+	raw      []named
 }
 
 func (c *Case) parse() (*pcase, error) {
@@ -109,6 +117,24 @@ func (c *Case) parse() (*pcase, error) {
 			return nil, err
 		}
 		p.varDefs = append(p.varDefs, varDef{x.List[0].Atom, t, d})
+	}
+	if c.AltVarDefs != "" {
+		ax, err := hx.ParseSexp(c.AltVarDefs)
+		if err != nil {
+			return nil, err
+		}
+		p.multi, p.altFirst = true, c.AltFirst
+		for _, x := range ax.List {
+			t, err := parseTy(x.List[1], p.env)
+			if err != nil {
+				return nil, err
+			}
+			d, err := parseDflt(x.List[2])
+			if err != nil {
+				return nil, err
+			}
+			p.altDefs = append(p.altDefs, varDef{x.List[0].Atom, t, d})
+		}
 	}
 	ar, err := hx.ParseSexp(c.Args)
 	if err != nil {
@@ -169,20 +195,22 @@ func (c *Case) treeLine(p *pcase) string {
 }
 
 // queryText renders the operation.
-func (p *pcase) queryText() string {
-	var b strings.Builder
-	b.WriteString("query Q")
-	if len(p.varDefs) > 0 {
-		parts := []string{}
-		for _, v := range p.varDefs {
-			s := "$" + v.Name + ": " + v.Ty.GraphQL()
-			if v.Dflt != nil {
-				s += " = " + litText(*v.Dflt)
-			}
-			parts = append(parts, s)
-		}
-		b.WriteString("(" + strings.Join(parts, ", ") + ")")
+func varDefsText(defs []varDef) string {
+	if len(defs) == 0 {
+		return ""
 	}
+	parts := []string{}
+	for _, v := range defs {
+		s := "$" + v.Name + ": " + v.Ty.GraphQL()
+		if v.Dflt != nil {
+			s += " = " + litText(*v.Dflt)
+		}
+		parts = append(parts, s)
+	}
+	return "(" + strings.Join(parts, ", ") + ")"
+}
+
+func (p *pcase) queryText() string {
 	args := ""
 	if len(p.args) > 0 {
 		parts := []string{}
@@ -191,15 +219,32 @@ func (p *pcase) queryText() string {
 		}
 		args = "(" + strings.Join(parts, ", ") + ")"
 	}
+	sel := ""
 	switch p.site {
 	case "field":
-		b.WriteString(" { f" + args + " }")
+		sel = "f" + args
 	case "directive":
-		b.WriteString(" { g @probe" + args + " }")
+		sel = "g @probe" + args
 	default:
-		b.WriteString(" { g @" + p.site + args + " }")
+		sel = "g @" + p.site + args
 	}
-	return b.String()
+	if p.multi {
+		// two operations spreading one fragment; B (with varDefs) is the one executed
+		a := "query A" + varDefsText(p.altDefs) + " { ...F }"
+		b := "query B" + varDefsText(p.varDefs) + " { ...F }"
+		if !p.altFirst {
+			a, b = b, a
+		}
+		return a + " " + b + " fragment F on Query { " + sel + " }"
+	}
+	return "query Q" + varDefsText(p.varDefs) + " { " + sel + " }"
+}
+
+func (p *pcase) operationName() string {
+	if p.multi {
+		return "B"
+	}
+	return ""
 }
 
 func (p *pcase) variablesText() string {
@@ -546,7 +591,7 @@ func runReal(c *Case) (o Observed, query, variables string, err error) {
 			return
 		}
 		w.hookCalls = 0
-		resp := graphql.Execute(&graphql.Request{Context: context.Background(), Document: doc, Schema: w.schema, VariableValues: vars})
+		resp := graphql.Execute(&graphql.Request{Context: context.Background(), Document: doc, Schema: w.schema, VariableValues: vars, OperationName: p.operationName()})
 		o.HookCalls = w.hookCalls
 		body, merr := json.Marshal(resp)
 		if merr != nil {
@@ -594,7 +639,7 @@ func runReal(c *Case) (o Observed, query, variables string, err error) {
 			}()
 			w.costArgs = nil
 			var actual int
-			req := &graphql.Request{Context: context.Background(), Query: query, Schema: w.schema, VariableValues: vars}
+			req := &graphql.Request{Context: context.Background(), Query: query, Schema: w.schema, VariableValues: vars, OperationName: p.operationName()}
 			graphql.ParseAndValidate(query, w.schema, nil, req.ValidateCost(-1, &actual, graphql.FieldCost{}))
 			if len(w.costArgs) > 0 {
 				o.Cost = w.costArgs[0].String()
@@ -617,8 +662,21 @@ func runUngated(p *pcase, w *world, query string, vars map[string]interface{}) (
 	if len(perrs) > 0 {
 		return "syntax-error"
 	}
-	op := doc.Definitions[0].(*ast.OperationDefinition)
-	field := op.SelectionSet.Selections[0].(*ast.Field)
+	var op *ast.OperationDefinition
+	var field *ast.Field
+	for _, d := range doc.Definitions {
+		switch d := d.(type) {
+		case *ast.OperationDefinition:
+			if !p.multi || (d.Name != nil && d.Name.Name == "B") {
+				op = d
+			}
+		case *ast.FragmentDefinition:
+			field = d.SelectionSet.Selections[0].(*ast.Field)
+		}
+	}
+	if field == nil {
+		field = op.SelectionSet.Selections[0].(*ast.Field)
+	}
 	coerced, verr := validator.CoerceVariableValues(w.schema, nil, op, vars)
 	if verr != nil {
 		return "reqerr"
